@@ -5,6 +5,7 @@ def dispatchInterop (line : String) : String :=
   match (line.trimAscii.toString.splitOn " ") with
   | "fn" :: args => handleFn args
   | "io" :: args => handleInterop args
+  | "st" :: args => handleStruct args
   | _ => "bad-op"
 
 partial def loopInterop (h : IO.FS.Stream) (out : IO.FS.Stream) : IO Unit := do
